@@ -37,9 +37,14 @@ def r111(ctx, fx, cg):
     # same length: the 4th argument of add is bytes.len() of the same slice passed to emit
     ctx.inst(rid, "%s|same-length" % em.path)
     ok = False
+    sm_add = fx.fn("mos_core::codegen::source_map::SourceMap::add")
+    i_len = lib.param_index(sm_add, "usize") if sm_add else None
+    if i_len is None:
+        ctx.fail_closed(rid, "SourceMap::add(…, len: usize) not found")
+        return
     for x, p in lib.hir_calls(em.hir["body"], "SourceMap::add"):
         a = lib.hargs(x)
-        d = lib.hdesc(a[4])
+        d = lib.hdesc(a[i_len])
         for y, p2 in lib.hir_calls(em.hir["body"], "Segment::emit"):
             b = lib.hdesc(lib.hargs(y)[1])
             if d[0] == "m" and d[1].endswith("::len") and d[2] == b:
@@ -164,12 +169,16 @@ def r114(ctx, fx):
         ctx.fail_closed(rid, "SourceMap::add not found")
     else:
         pn = [p.get("name") for p in add.hir["params"]]
+        i_pc, i_len = lib.param_index(add, "ProgramCounter"), lib.param_index(add, "usize")
+        if i_pc is None or i_len is None:
+            ctx.fail_closed(rid, "SourceMap::add(…, pc: ProgramCounter, len: usize) not recognised")
+            return
         ok = False
         for s in lib.hwalk(add.hir["body"]):
             if s.get("k") == "struct" and lib.pm(s["res"].get("path"), "ops::range::Range"):
                 fl = {f["name"]: lib.hdesc(f["e"]) for f in s["fields"]}
                 st, en = fl.get("start"), fl.get("end")
-                if st and en and en[0] == "Add" and st in en[1:] and ("v", pn[4]) in en[1:] and pn[3] in repr(st):
+                if st and en and en[0] == "Add" and st in en[1:] and ("v", pn[i_len]) in en[1:] and pn[i_pc] in repr(st):
                     ok = True
         if not ok:
             ctx.finding(rid, sm + "add", "a source-map entry must cover pc .. pc + len", add.where)
@@ -196,12 +205,139 @@ def r114(ctx, fx):
             ctx.finding(rid, sm + "address_to_offset", "address lookup must test start <= pc < end", ao.where)
 
 
+def r115(ctx, fx, cg):
+    from . import reentry
+    rid = ctx.rule("R11.5", "state across nested constructs (A8): the code generator re-enters emit_token for macro / loop / scope / import bodies; no field of the "
+                   "source map (or of anything else in the context) that one activation overwrites before a nested activation is read after it, unless the "
+                   "body restores the saved value on every path — a single `mark`/cursor shared by nested macro invocations attributes the outer macro's "
+                   "bytes to the wrong statement")
+    et = fx.fn("mos_core::codegen::CodegenContext::emit_token")
+    if et is None:
+        ctx.fail_closed(rid, "emit_token not found")
+        return
+    R = reentry.Reentry(fx, cg, et)
+    nb = 0
+    cands = 0
+    for b in sorted(R.bodies, key=lambda f: f.path):
+        nb += 1
+        W = reentry.direct_overwrites(b)
+        cs = [bi for bi, t in lib.calls(b) if R.may_reenter(t)]
+        if cs and W:
+            cands += 1
+            ctx.inst(rid, "%s|overwrites-before-reentry" % b.path, sample={"body": b.path, "overwritten_fields": sorted("%s.%s" % (a.rsplit("::", 1)[-1], n) for a, n in W)[:6],
+                                                                         "reentering_calls": len(cs)})
+        else:
+            ctx.inst(rid, b.path, nontrivial=False)
+        seen = {}
+        for f, w, c, r in R.analyse(b):
+            owner = b
+            while owner.kind == "closure" and owner.d.get("parent") in fx.fns:
+                owner = fx.fns[owner.d["parent"]]
+            name = "%s.%s" % (f[0].rsplit("::", 1)[-1], f[1])
+            seen[name] = seen.get(name, 0) + 1
+            key = "%s|%s#%d" % (owner.path, name, seen[name])
+            ctx.inst(rid, key)
+            ctx.finding(rid, key, "`%s` is overwritten (line %s), then a nested activation of the code generator may run (line %s) and overwrite it again, then it is "
+                        "read (line %s) without having been restored: with nested macros / scopes the outer construct continues with the inner one's value" % (
+                            name, b.blocks[w]["term"].get("line"), b.blocks[c]["term"].get("line"), b.blocks[r]["term"].get("line")),
+                        "%s:%s" % (b.file, b.blocks[r]["term"].get("line")))
+    ctx.extra["reentry"] = {"bodies": nb, "bodies_overwriting_before_reentry": cands, "reentrant_functions": len(R.re)}
+    if nb < 100 or cands < 2:
+        ctx.fail_closed(rid, "re-entry analysis lost its anchors: %d bodies, %d candidates" % (nb, cands))
+
+
+def r116(ctx, fx):
+    rid = ctx.rule("R11.6", "repaired attribution defects stay repaired: (a) the entries moved to a macro invocation are selected by position (everything appended while "
+                   "the body was emitted), not by equality with the macro's own scope — bytes from blocks/loops nested in the body belong to the invocation too; "
+                   "(b) a listing row is cut where addresses stop being consecutive, not by count alone (slice::chunks); (c) the listing reads an entry's bytes "
+                   "from the segment recorded in the entry, not from the first segment whose range happens to contain the address; (d) listing files of "
+                   "sources with the same stem get distinct names and are written in a fixed order")
+    mv = fx.fn("mos_core::codegen::source_map::SourceMap::move_offsets")
+    et = fx.fn("mos_core::codegen::CodegenContext::emit_token")
+    tl = fx.fn("mos_core::io::listing::to_listing")
+    bc = fx.fn("mos::commands::build::build_command")
+    if not (mv and et and tl and bc):
+        ctx.fail_closed(rid, "move_offsets / emit_token / to_listing / build_command not found")
+        return
+    # (a)
+    k = "move_offsets|selection"
+    ctx.inst(rid, k)
+    by_scope = [n for n in lib.hwalk(mv.hir["body"]) if n.get("k") == "binary" and n.get("op") in ("Eq", "Ne") and
+                any(x.get("k") == "field" and x.get("name") == "scope" for x in lib.hwalk(n))]
+    if by_scope:
+        ctx.finding(rid, k, "move_offsets selects the entries to re-attribute by `offset.scope == <macro scope>`: bytes emitted from a `{ }` block, a labelled block or "
+                    "a .loop inside a macro body keep the definition's lines, where the bytes of all invocations pile up in one listing row", mv.where)
+    else:
+        # position-based: the caller takes offsets().len() before emitting the body and hands it over
+        arm = None
+        for n in lib.hwalk(et.hir["body"]):
+            if n.get("k") == "match":
+                for a in n["arms"]:
+                    pk = lib.pat_key(a["pat"])
+                    if isinstance(pk, str) and pk.split("(")[0].endswith("Token::MacroInvocation"):
+                        arm = a
+                if arm:
+                    break
+        ok = False
+        if arm is not None:
+            first = None
+            for n in lib.hwalk(arm["body"]):
+                if n.get("k") == "let" and "init" in n and n["pat"].get("k") == "bind":
+                    d = repr(lib.hdesc(n["init"]))
+                    if "SourceMap::offsets" in d and "::len" in d:
+                        first = (n["pat"]["name"], n.get("ln") or n["pat"].get("ln") or min([x["ln"] for x in lib.hwalk(n["init"]) if x.get("ln")] or [0]))
+            emits = [x.get("ln") for x, p in lib.hir_calls(arm["body"], "CodegenContext::emit_tokens") if "block" in repr(lib.hdesc(lib.hargs(x)[1]))]
+            moves = [x for x, p in lib.hir_calls(arm["body"], "SourceMap::move_offsets")]
+            if first and emits and moves:
+                ok = first[1] < min(emits) < moves[0].get("ln") and any(lib.hpath(a) == first[0] for a in lib.hargs(moves[0])[1:])
+        if not ok:
+            ctx.finding(rid, k, "the macro invocation does not hand move_offsets the number of entries that existed before its body was emitted", et.where)
+    # (b)
+    k = "to_listing|rows"
+    ctx.inst(rid, k)
+    chunked = [x for x in lib.hwalk(tl.hir["body"]) if x.get("k") == "mcall" and x.get("name") in ("chunks", "chunks_exact", "rchunks")]
+    if chunked:
+        ctx.finding(rid, k, "listing rows are cut by count only (slice::%s): the bytes a source line emitted at non-consecutive addresses (loop iterations, repeated "
+                    "imports) are shown in one row as if they followed the row's address" % chunked[0]["name"], "%s:%s" % (tl.file, chunked[0].get("ln")))
+    # (c)
+    k = "to_listing|segment"
+    ctx.inst(rid, k)
+    scans = [n for n in lib.hwalk(tl.hir["body"]) if n.get("k") == "match" and n.get("src") == "ForLoopDesugar" and
+             "IndexMap::values" in repr(lib.hdesc(lib.strip(lib.strip(n["scrut"])["args"][0]))) and "segments" in repr(lib.hdesc(lib.strip(lib.strip(n["scrut"])["args"][0])))]
+    uses_entry_segment = any(x.get("k") == "field" and x.get("name") == "segment" for x in lib.hwalk(tl.hir["body"]))
+    if scans or not uses_entry_segment:
+        ctx.finding(rid, k, "the listing looks for *a* segment whose range contains the entry's address instead of the segment the entry was emitted to: with "
+                    "segments that share target addresses the rows of one show the bytes of another", tl.where)
+    # (d)
+    k = "build_command|listing-names"
+    ctx.inst(rid, k)
+    loop = None
+    for n in lib.hwalk(bc.hir["body"]):
+        if n.get("k") == "match" and n.get("src") == "ForLoopDesugar" and any(True for _ in lib.hir_calls(n, "File::create")) and \
+                any(x.get("k") == "lit" and ".lst" in str(x.get("v")) for x in lib.hwalk(n)):
+            loop = n
+            break
+    if loop is None:
+        ctx.fail_closed(rid, "the loop that writes the listing files was not found in build_command")
+    else:
+        it = repr(lib.hdesc(lib.strip(lib.strip(loop["scrut"])["args"][0])))
+        ordered = "sorted" in it or "BTreeMap" in it or "IndexMap" in it
+        whole_path = any(x.get("k") == "mcall" and x.get("name") in ("strip_prefix", "display", "to_str", "components") for x in lib.hwalk(loop)) or \
+            any(x.get("k") == "mcall" and x.get("name") == "to_string_lossy" and "file_stem" not in repr(lib.hdesc(x["recv"])) for x in lib.hwalk(loop))
+        if not whole_path:
+            ctx.finding(rid, k, "a listing file is named after the file stem of its source only: `a.asm` and `a.inc`, or equally named files in different directories, "
+                        "overwrite each other's listing", "%s:%s" % (bc.file, loop.get("ln")))
+        if not ordered:
+            ctx.finding(rid, k + "|order", "listing files are written in the iteration order of a HashMap", "%s:%s" % (bc.file, loop.get("ln")))
+
+
 def run(ctx):
     fx = ctx.facts
     cg = lib.CallGraph(fx)
     r111(ctx, fx, cg)
+    r115(ctx, fx, cg)
+    r116(ctx, fx)
     r112(ctx, fx)
     r113(ctx, fx, cg)
     r114(ctx, fx)
-    ctx.not_decided("row layout, per-line grouping and uniqueness of listing rows; attribution of bytes from brace blocks nested in macro bodies; "
-                    "contiguity of the bytes shown in one row")
+    ctx.not_decided("row layout and per-line grouping of listing rows on concrete programs; that every byte appears exactly once")
